@@ -628,7 +628,7 @@ pub fn check(ctx: &CheckCtx) -> Option<Found> {
     if let Some(f) = ctx.search("sched", case_strategy(), t.pick(20_000, 300_000), 6, None, run_case) {
         return Some(f);
     }
-    if let Some(f) = ctx.search("free", free_strategy(), t.pick(3_000, 120_000), 4, None, run_free) {
+    if let Some(f) = ctx.search("free", free_strategy(), t.pick(2_000, 120_000), 4, None, run_free) {
         return Some(f);
     }
     // bounded-exhaustive: every schedule of tiny configurations
